@@ -19,11 +19,11 @@ CLAIMED = {
         ref="DESIGN.md 4.5, 5/C05", technique="TLC model check of Gibbs.tla/GibbsJoint.tla + replay of TLC-enumerated scripts + trace validation (Trace_Gibbs)"),
     "C11": dict(
         text="Stats.tla defines split R-hat^2 as an exact fraction of integer arrays; TLC checks its theorems (lower bound (n-1)/n, affine / permutation invariance, growth under separation) on every array in the bounds and prints the exact expected value per array; every array is fed to the real split_rhat_mean_ess in 4 embeddings (alone, among other parameters, affine, rescaled) and must agree to f32 accuracy; long spec-generated arrays cover large n; BasicStats.tla decides the run summary (min/max/mean/std/middle order statistic, NaN tolerated).",
-        note="Trusted: TLC integer arithmetic (overflow is an error), the final float comparison in harness/src/stats.rs. Either divisor of W accepted; undefined (W=0) cases only required not to fail.",
+        note="Trusted: TLC integer arithmetic (overflow is an error), the final float comparison in harness/src/stats.rs. Either divisor of W accepted; undefined (W=0) cases only required not to fail. Each array is also evaluated from inside rayon pools of 1..3 threads, in column-major / permuted storage and in units of 2^-20 and 2^20.",
         ref="DESIGN.md 4.8, 5/C11", technique="TLC-enumerated arrays with exact rational oracle (Stats.tla, BasicStats.tla) replayed into the real diagnostics"),
     "C12": dict(
         text="Stats.tla defines ESS = m n / tau with Geyer's initial positive monotone sequence over exact integer autocovariances (no brute-force/FFT distinction); TLC checks affine, permutation and time-reversal invariance on every array in the bounds and emits the exact expected ESS; arrays are replayed into the real implementation on the brute-force path (exhaustive small arrays) and on the FFT path (spec-generated binary Markov/block chains with half lengths 100..500 around the 100-row switch and both padding cases).",
-        note="Trusted: TLC, float comparison with 2^-14 relative tolerance; arrays whose Geyer cut is within 2^-12 var+ of a tie are skipped for the value (rule U). Asymptotic 'about N(1-phi)/(1+phi)' is not asserted.",
+        note="Trusted: TLC, float comparison with 2^-14 relative tolerance; arrays whose Geyer cut is within 2^-12 var+ of a tie are skipped for the value (rule U). Asymptotic 'about N(1-phi)/(1+phi)' is not asserted. Each array is also evaluated from inside rayon pools of 1..3 threads and in column-major / permuted storage.",
         ref="DESIGN.md 4.8, 5/C12", technique="TLC-enumerated and TLC-generated arrays with exact rational oracle (Stats.tla) replayed into the real ESS code"),
     "C13": dict(
         text="Trackers.tla models a tracker by its exact sufficient statistics (n, sums, sums of squares, previous state); TLC enumerates every update history in the bounds and emits exact per-chain statistics and the classical R-hat^2 fraction, which ChainTracker, collect_rhat and MultiChainTracker must all reproduce; RhatGrid.tla does the same for collect_rhat over a grid of per-chain summaries with 1..3 parameters; histories of up to 5000 updates (1..8 parameters, 4 element types) are validated report by report by TLC (count, mean, unbiased variance in fixed point, EMA recurrence with weight 0.01 and range [0,1], multi-row envelope).",
@@ -39,7 +39,7 @@ CLAIMED = {
         ref="DESIGN.md 4.9, 5/C15", technique="TLC-enumerated lattice cases with exact symbolic oracle and gradient lemmas (Dist.tla) replayed into every public evaluation path"),
     "C17": dict(
         text="Export.tla models a save call as one atomic action over a file system of tables of opaque tokens, with the documented axis order of each of the five entry points; TLC checks one-row-per-cell / every-token-once / error-leaves-nothing on all (entry point, shape incl. zero extents, path kind) and emits the expected table; the real save_* functions are called with tokens bound to adversarial values (subnormals, extremes, -0.0, NaN, infinities, integer extremes), the files are read back with the csv/arrow/parquet readers and compared cell by cell, unwritable paths must give Err without panic or leftover file.",
-        note="Trusted: TLC for layout/labels/Ok-Err; the csv, arrow and parquet reader crates and bit-pattern comparison in harness/src/c17.rs for value fidelity.",
+        note="Trusted: TLC for layout/labels/Ok-Err; the csv, arrow and parquet reader crates and bit-pattern comparison in harness/src/c17.rs for value fidelity. The array entry points are called with the same logical array in five memory layouts (row-major, column-major, permuted / reversed axes, strided view).",
         ref="DESIGN.md 4.9, 5/C17", technique="TLC-enumerated save actions (Export.tla) replayed into the real writers and read back"),
     "C18": dict(
         text="InitPos.tla models _init as its draw loop over one seeded stream; TLC checks shape, row-major stream indexing, exact consumption and the prefix property for n,d <= 3 and emits expected stream indices for a grid of sizes up to 256 x 256 and six seed classes incl. u64::MAX; the real init_with_seed / init_det / init are compared entry by entry (bit-equal to the corresponding StandardNormal draw), for purity across repeated calls and threads, seed sensitivity, and init's shape/finiteness/freshness.",
@@ -63,14 +63,14 @@ CLAIMED = {
         ref="DESIGN.md 4.3, 5/C10", technique="TLC model check incl. liveness of Progress.tla + Apalache inductive invariant of the reporter bookkeeping (ProgressInd.tla) + replay of TLC-generated schedules/configurations/faults + trace validation (Trace_Progress)"),
     "C02": dict(
         text="HMC.tla models one row of the batched step action by action (momentum, gradient term at the current position, energy, L x half-kick/drift/gradient/half-kick, energy, Metropolis test ln u <= H - H', select) on a dyadic lattice where every quantity is an exact integer; TLC proves exactness of the lattice, that the code-shaped integrator (carried gradient term) is velocity Verlet, exact time reversibility and 'old row or proposal' for every configuration in the bounds incl. two consecutive steps; every behaviour is replayed through the real HMC::step with injected momenta/uniforms and must match BIT FOR BIT on the f64 backend (positions, momenta, both energies, mask), in batches, reversed batches and alone; verif_leapfrog from (x',-p') must return exactly to (x,-p); runs on Gaussian, Rosenbrock, Student-t and half-line targets (1..32 chains, dim 2..16, L 0..64, stable to overflowing step sizes) are trace-validated sub-step by sub-step against the harness's own gradients.",
-        note="Trusted: TLC; hook events and overrides (feature verif-hooks); the harness's closed-form gradients for trace mode; tolerances 1e-7 (f64) / 2e-4..5e-4 (f32-level) with a 10-unit budget; exact finite ties are never generated.",
+        note="Trusted: TLC; hook events and overrides (feature verif-hooks); the harness's closed-form gradients for trace mode; tolerances 1e-12 (f64 paths) / 2e-4..5e-4 (f32 paths) with a 10-unit budget; exact finite ties are never generated.",
         ref="DESIGN.md 4.6, 5/C02", technique="TLC model check of HMC.tla on an exact dyadic lattice + bit-exact replay through HMC::step + trace validation on arbitrary targets (Trace_HMC)"),
     "C03": dict(
         text="NutsTree.tla is Algorithm 6 as coded (NUTSChain::step + build_tree) as an explicit stack machine over an abstract leapfrog trajectory indexed by integer offsets, with an oracle for slice membership, divergence and U-turns and with the exact selection distribution of the candidate propagated through every merge; TLC proves, for every oracle pattern and random choice to tree depth 2 (3 thorough): next state is 0 or a slice-admissible visited point, never from a stopped subtree, contiguous extent <= 2^j, n = 1 + |slice|, n_alpha = leaves of the last doubling, uniform selection within a subtree (a wrong merge weight is the negative control). Real transitions (Gaussians dim 1..8 with random precision, library Gaussian, Rosenbrock, funnel, divergent, NaN-region targets, forced tiny/huge step sizes up to tree depth 10, f32/f64) are validated event by event: TLC replays the stack machine with the oracle answers bound to the logged fields and requires every logged counter, extent, candidate and state to equal the machine's; every leaf is re-integrated with the harness's own leapfrog. In the other direction Replay_NutsTree.tla fixes the oracle by a script that a real target realises (first coordinate = trajectory offset, exact dyadic momenta, slice class / divergence / U-turns chosen per offset), TLC runs NutsTree's own actions on every script to depth 1 (2) and sampled scripts to depth 3 (4), and the real build_tree (verif_api wrapper, scripted GradientTarget) must return the specification's n', s', n_alpha, alpha' and one of its candidates.",
         note="Trusted: TLC; hook events; identification of trajectory points by bit pattern; the harness's closed-form gradients; quantised uniforms (2^-16, margin 2), U-turn dead zone 1e-4, divergence-bound margin 1.0. Whole transitions cannot be steered (the momentum is drawn inside step): they are validated impl -> spec only; build_tree is replayed spec -> impl, where which admissible candidate is drawn is not controlled (6 generator seeds per script).",
         ref="DESIGN.md 4.7, 5/C03", technique="TLC model check of NutsTree.tla over all oracle patterns + replay of TLC-generated build_tree behaviours on scripted targets into the real build_tree (Replay_NutsTree) + trace validation of real transitions against the same stack machine (Trace_NutsTree)"),
     "C04": dict(
-        text="MC_DualAvg.tla checks the phase machine over several run() calls (adapt exactly while m <= n_discard, then the step size equals the averaged iterate and never changes within the run, the counter persists); Trace_DualAvg validates every transition of real chains (warm-up 0..300/2000, requested acceptance 0.55..0.95, repeated run() calls, several targets, f32/f64): phase decided by the specification, counter, shrinkage point ln(10 eps), power-of-two start value, positivity/finiteness, coarse interval versions of the three dual-averaging recurrences from certified tables (gamma 0.05, t0 10, kappa 0.75) and fine residuals of the same recurrences; the start-up heuristic is called through its wrapper and must stop where Algorithm 4 stops.",
+        text="MC_DualAvg.tla checks the phase machine over several run() calls (adapt exactly while m <= n_discard, then the step size equals the averaged iterate and never changes within the run, the counter persists); Trace_DualAvg validates every transition of real chains (warm-up 0..300/2000, requested acceptance 0.52..0.985, repeated run() calls, several targets, f32/f64): phase decided by the specification, counter, shrinkage point ln(10 eps), power-of-two start value, Algorithm 4's postcondition for the start-up search (DualAvg!StartValueOk: acceptance crosses 1/2 next to eps0, undefined or zero density = acceptance 0), positivity/finiteness, coarse interval versions of the three dual-averaging recurrences from certified tables (gamma 0.05, t0 10, kappa 0.75) and fine residuals of the same recurrences; the start-up heuristic is called through its wrapper and must stop where Algorithm 4 stops.",
         note="Trusted: TLC, certified tables (bin/gen_tables.py, exact integer arithmetic), the harness's f64 re-evaluation for the fine residuals. The statistical clause (realised acceptance close to requested) is reported and asserted only as a wide envelope.",
         ref="DESIGN.md 4.7, 5/C04", technique="TLC model check of the adaptation phase machine + trace validation of real adaptation histories against DualAvg.tla with certified interval tables"),
     "C14": dict(
